@@ -191,6 +191,7 @@ pub fn tokens(trace: &[Value]) -> Vec<Value> {
                         "code":e["e"]["reason"]["code"].as_i64().unwrap_or(-1).min(CLAMP)}));
                 }
             }
+            "StepBound" if e["what"] == "max_trace" => {}
             "Panic" | "StepBound" => out.push(json!({"ev":"Panic","t":t,"what":e["what"]})),
             _ => {}
         }
